@@ -632,6 +632,14 @@ func slotSources(p *Prog, fn *ssa.Function, slot ctxSlot, depth int, seen map[st
 
 func valueSources(p *Prog, caller *ssa.Function, v ssa.Value, depth int, seen map[string]bool) []string {
 	v = Resolve(v)
+	// a field of the caller's own parameter object: where that object's field comes from
+	if q, path, ok := fieldChainOf(caller, v); ok && len(path) > 0 && unexportedStruct(derefType(q.Type())) != nil {
+		for i, prm := range caller.Params {
+			if prm == q {
+				return slotSources(p, caller, ctxSlot{i, path}, depth+1, seen)
+			}
+		}
+	}
 	switch x := v.(type) {
 	case *ssa.Parameter:
 		for i, prm := range caller.Params {
@@ -1427,6 +1435,32 @@ func checkMiddlewareIDs(r *Report, m *spModel, rule string) {
 			}
 			c2 := fmt.Sprintf("%s: ID appended: %s", p.FnName(fc.Fn), fc.AP(v))
 			condOf := st.fc.AbsCond(ap.Block())
+			// the IDs to add read from a constant table keyed by the AllowIDPInitiated flag (append(ids, extra[flag]...)):
+			// each entry is judged under "flag == its key"
+			if lk, isLk := v.(*ssa.Lookup); isLk && !lk.CommaOk && strings.HasSuffix(fc.AP(lk.Index), "AllowIDPInitiated") {
+				if ents, okT := fc.tableEntries(lk); okT {
+					okAll := true
+					for _, e := range ents {
+						kb, isB := constBool(e.k)
+						var elems []ssa.Value
+						if c, isC := e.v.(*ssa.Const); !isC || c.Value != nil {
+							el, okE := sliceLiteralValues(e.v)
+							if !okE {
+								okAll = false
+								break
+							}
+							elems = el
+						}
+						for _, el := range elems {
+							if !isEmptyStringConst(el) || !isB || !kb {
+								okAll = false
+							}
+						}
+					}
+					r.Check(okAll, rule, c2, p.InstrPos(ap), "constant table: the empty ID under AllowIDPInitiated == true only, nothing else", "the table adds an ID other than the empty one, or the empty one without AllowIDPInitiated")
+					continue
+				}
+			}
 			switch {
 			case isEmptyStringConst(v):
 				// only under AllowIDPInitiated
